@@ -10,7 +10,7 @@ import socket
 import time
 from logging import getLogger
 from queue import Queue
-from threading import Event, Thread
+from threading import Barrier, Event, Thread
 from typing import Dict, List, Optional, Set, Tuple
 
 from .socket_interface import MessageInterface, SocketInterface
@@ -108,15 +108,9 @@ class PlayerThread(Thread, MessageInterface):
         logger.info('Connection is closed.')
 
     def _sync_event(self) -> None:
-        # sets my Event True, and notify the main thread that getting ready
-        self.players_event[self.player].set()
-        logger.debug('set')
-        # waits until the main thread confirms all players are ready
+        # waits until the main thread and all players are ready
         self.event_sync.wait()
         logger.debug('wait')
-        # sets (initialize) my Event False for next _sync_event
-        self.players_event[self.player].clear()
-        logger.debug('clear')
 
     def _connect(self) -> bool:
         team_name, self.player, protocol_version = \
@@ -418,13 +412,10 @@ class Server(SocketInterface):
 
     @staticmethod
     def _sync_event(players_event: Dict[Player, Event],
-                    event: Event):
-        # condition have to be already acquired.
-        for p, e in players_event.items():
-            e.wait()
-            logger.debug(f'{p.formal_name} wait')
-        event.set()
-        logger.debug('set')
+                    event: Barrier):
+        # waits until all players are ready
+        event.wait()
+        logger.debug('wait')
 
     @staticmethod
     def convert_vul(vul: Vul) -> str:
@@ -462,7 +453,6 @@ class Server(SocketInterface):
         # wait to be ready for deal
         self._sync_event(self.players_event, event_sync)
 
-        event_sync.clear()
         # wait to be ready for cards
         self._sync_event(self.players_event, event_sync)
 
@@ -578,8 +568,8 @@ class Server(SocketInterface):
         all_connected = lambda: all(
             [name is not None for _, name in team_names.items()])
 
-        # Consider to use queue
-        event_sync = Event()
+        # reusable barrier of the main thread and the four player threads
+        event_sync = Barrier(len(Player) + 1)
         event_thread = Event()
         while not all_connected():
             connection, _ = self._socket.accept()
@@ -644,7 +634,6 @@ class Server(SocketInterface):
                 if board_id is None:
                     board_id = str(board_number)
 
-                event_sync.clear()
                 self.deal(board_number, dealer, vul, cards, event_sync)
 
                 # TODO: Consider to deal with exception
